@@ -224,7 +224,7 @@ def showTable (t : Option BW) : String :=
   | some bw => showRats bw
 
 /-- kinds `msweep`, `hsweep`, `bw`, `mprob`, `hprob` (see Drivers/C08.lean) -/
-def diagStep (toks : List String) : Option String :=
+def diagStepCore (toks : List String) : Option String :=
   match toks with
   | ["msweep", ham, beta, cutoff, state, slots, script] =>
     let H := tableHam (parseTableHam ham)
@@ -270,6 +270,17 @@ def diagStep (toks : List String) : Option String :=
     if rs.margin < 1 / 1000000000 then some "?" else
     some s!"{n} {showApprox (β * W / (((L - n : Nat) : Rat) + β * W))} {showApprox (mw / W)} {showApprox acc} {showApprox (pRemoveHB β W L (n + 1))}"
   | _ => none
+
+/-- `diagStepCore` plus `gsweep` / `gprob`: heat-bath sweep / slot probabilities of the generic sampler, whose table
+is by specification the one of its CURRENT interaction list (`makeBondWeights` of the given Hamiltonian):
+  gsweep <ham> <beta> <cutoff> <state> <slots> <script>;  gprob <ham> <beta> <cutoff> <state> <slots> <script> <k> <b> -/
+def diagStep (toks : List String) : Option String :=
+  match toks with
+  | "gsweep" :: ham :: rest =>
+    diagStepCore ("hsweep" :: ham :: showRats (makeBondWeights (tableHam (parseTableHam ham))) :: rest)
+  | "gprob" :: ham :: rest =>
+    diagStepCore ("hprob" :: ham :: showRats (makeBondWeights (tableHam (parseTableHam ham))) :: rest)
+  | _ => diagStepCore toks
 
 end Proto
 end Qmc
